@@ -450,6 +450,7 @@ PROPS = {
         "timeout": 900,
         "thorough_timeout": 3000,
         "race_thorough": True,
+        "race_quick_scale": 0.1,
         "race_is_violation": True,
         "race_filter": "math/rand.(*Rand)",  # concurrent use of one rand.Rand corrupts it and can panic: a crash waiting to happen
         "thorough_scale": 3,
